@@ -681,6 +681,7 @@ func (x *pmmx) ruleAllocMarks() {
 					idxs = append(idxs, t.Index)
 				}
 			}
+			counted := map[ssa.Value]bool{}
 			for _, h := range g.loopsAround(n) {
 				zs := &Polyizer{}
 				lf, ok := g.loopFormAt(zs, h)
@@ -693,12 +694,24 @@ func (x *pmmx) ruleAllocMarks() {
 						continue
 					}
 					nloops++
+					counted[iv] = true
 					if f0, isC := first.isConst(); !isC || f0 != 0 {
 						bad = "the scan does not start at index 0: it starts at " + first.String()
 						where = g.posOf(g.First[h])
 					}
 				}
 				lf.Done()
+			}
+			// each index of the word that is looked at is the counter of one of the
+			// loops around it: a position that is kept between calls, wraps round or
+			// is computed some other way does not visit the words lowest first
+			if len(g.loopsAround(n)) > 0 {
+				for _, iv := range idxs {
+					if _, isK := constInt64(iv); !isK && !counted[iv] && bad == "" {
+						bad = "the scan looks at a bitmap word whose index (" + describe(iv) + ") is not the counter of a loop from 0 upwards: the lowest clear bit is not found first"
+						where = g.posOf(n)
+					}
+				}
 			}
 		}
 		if nloops == 0 {
@@ -1495,6 +1508,76 @@ func runC03(c *Ctx) {
 		}
 		c.fail("C03.R1", key, what+" is "+got.String()+", expected "+strings.Join(ws, " or ")+" with n = endFrame-startFrame+1 = "+nAtom+": "+why, pos)
 	}
+	// the two passes over the memory map size and fill the same pools: the
+	// conditions on the region under which the first pass counts a pool are the
+	// conditions under which the second pass fills one (a region that only one
+	// of them skips shifts every later pool, or indexes past the pools)
+	{
+		filterOf := func(v *ssa.Function) (string, int) {
+			g := newIG(m, v, nil)
+			var common map[string]bool
+			nst := 0
+			if len(v.Params) == 0 {
+				return "", 0
+			}
+			prm := v.Params[0]
+			zf := &Polyizer{}
+			for n, in := range g.Ins {
+				st, ok := in.(*ssa.Store)
+				if !ok {
+					continue
+				}
+				if p := accessPath(st.Addr); len(p) > 0 && p[0].Kind == "alloc" {
+					continue
+				}
+				nst++
+				set := map[string]bool{}
+				for _, f := range g.FactsAt(n) {
+					if f.Y == nil || !(readsFrom(f.X, prm, 0) || readsFrom(f.Y, prm, 0)) {
+						continue
+					}
+					a, b, op := zf.Of(f.X).String(), zf.Of(f.Y).String(), f.Op
+					switch op {
+					case token.GTR:
+						a, b, op = b, a, token.LSS
+					case token.GEQ:
+						a, b, op = b, a, token.LEQ
+					case token.EQL, token.NEQ:
+						if b < a {
+							a, b = b, a
+						}
+					}
+					set[strings.ReplaceAll(a+" "+op.String()+" "+b, prm.Name()+".", "R.")] = true
+				}
+				if common == nil {
+					common = set
+				} else {
+					for k := range common {
+						if !set[k] {
+							delete(common, k)
+						}
+					}
+				}
+			}
+			var ks []string
+			for k := range common {
+				ks = append(ks, k)
+			}
+			sort.Strings(ks)
+			return strings.Join(ks, " && "), nst
+		}
+		if len(vis) >= 2 {
+			f0, n0 := filterOf(vis[0])
+			bad := ""
+			for _, v := range vis[1:] {
+				f1, n1 := filterOf(v)
+				if n0 > 0 && n1 > 0 && f0 != f1 {
+					bad = "the first pass counts a pool for regions with {" + f0 + "}, the other pass fills one for regions with {" + f1 + "}"
+				}
+			}
+			c.check(bad == "", "C03.R1", "pass-agreement "+m.fnName(x.setup), "both passes over the memory map select the same regions: {"+f0+"}", bad+": the pools the second pass fills are not the pools the first pass sized", m.pos(x.setup.Pos()))
+		}
+	}
 	seen := map[string]bool{}
 	for vi, v := range vis {
 		g := newIG(m, v, nil)
@@ -1935,4 +2018,32 @@ func (x *pmmx) freeDelegates(g *IG) []int {
 		}
 	}
 	return out
+}
+
+// readsFrom: v is computed from p or from memory reached through p (fields of
+// the object p points to), through arithmetic and conversions.
+func readsFrom(v ssa.Value, p ssa.Value, d int) bool {
+	if v == p {
+		return true
+	}
+	if d > 12 {
+		return false
+	}
+	switch t := v.(type) {
+	case *ssa.BinOp:
+		return readsFrom(t.X, p, d+1) || readsFrom(t.Y, p, d+1)
+	case *ssa.UnOp:
+		return readsFrom(t.X, p, d+1)
+	case *ssa.Convert:
+		return readsFrom(t.X, p, d+1)
+	case *ssa.ChangeType:
+		return readsFrom(t.X, p, d+1)
+	case *ssa.FieldAddr:
+		return readsFrom(t.X, p, d+1)
+	case *ssa.Field:
+		return readsFrom(t.X, p, d+1)
+	case *ssa.IndexAddr:
+		return readsFrom(t.X, p, d+1)
+	}
+	return false
 }
